@@ -1050,3 +1050,15 @@ impl<'a> IdMaps<'a> {
         }
     }
 }
+
+/// Puntos de acceso para verificación (no forman parte de la API pública)
+#[cfg(any(kani, verif_hooks))]
+pub mod verif_hooks {
+    pub use super::{normalize_azimuth, orientation_bdl_to_52016};
+    pub fn day_of_year(day: u32, month: u32) -> u32 {
+        super::day_of_year(day, month)
+    }
+    pub fn wall_geometry(wall: &hulc::bdl::Wall, bdl: &hulc::bdl::Data) -> crate::WallGeom {
+        super::wall_geometry(wall, bdl)
+    }
+}
